@@ -165,29 +165,63 @@ Theorem C13_cumulus_faithful : forall acct entries,
 Proof. exact cumulus_faithful. Qed.
 Print Assumptions C13_cumulus_faithful.
 
-(* ---------------------------------------------------------------- the emitted text *)
-(* On success the standard output of the five CSV importers (postfinance: see above) and of viac
-   is journal.Print of exactly the directives of the theorems above. *)
-Theorem C13_swisscard2_stdout : forall flag acct items ds, account_flag flag = AAcc acct ->
-  import_swisscard2 acct items = MOk ds -> run_swisscard2 flag items = mkRun (print_directives ds) SOk.
-Proof. exact run_swisscard2_ok. Qed.
-Print Assumptions C13_swisscard2_stdout.
-Theorem C13_cumulus_stdout : forall flag acct items ds, account_flag flag = AAcc acct ->
-  import_cumulus acct items = MOk ds -> run_cumulus flag items = mkRun (print_directives ds) SOk.
-Proof. exact run_cumulus_ok. Qed.
-Print Assumptions C13_cumulus_stdout.
-Theorem C13_swisscard_stdout : forall flag acct items ds, account_flag flag = AAcc acct ->
-  import_swisscard acct items = MOk ds -> run_swisscard flag items = mkRun (print_directives ds) SOk.
-Proof. exact run_swisscard_ok. Qed.
-Print Assumptions C13_swisscard_stdout.
-Theorem C13_supercard_stdout : forall flag acct items ds, account_flag flag = AAcc acct ->
-  import_supercard acct items = MOk ds -> run_supercard flag items = mkRun (print_directives ds) SOk.
-Proof. exact run_supercard_ok. Qed.
-Print Assumptions C13_supercard_stdout.
-Theorem C13_viac_stdout : forall flag items ds, valid_name flag = true ->
-  import_viac flag 0 items = MOk ds -> run_viac flag None items = mkRun (print_directives ds) SOk.
-Proof. exact run_viac_ok. Qed.
-Print Assumptions C13_viac_stdout.
+(* ---------------------------------------------------------------- from the command line to stdout *)
+(* With a valid --account (--commodity) the command succeeds on every well-formed statement and
+   its standard output is journal.Print of exactly the transactions (prices) of the theorems
+   above -- for postfinance preceded by the debugging line when dbg = true. *)
+Theorem C13_swisscard2_end_to_end : forall flag acct header rows,
+  account_flag flag = AAcc acct -> acct <> tbd_account -> forallb sc2_wf_row rows = true ->
+  exists ts, run_swisscard2 flag (CRec header :: map CRec rows) = mkRun (print_directives (map DTxn ts)) SOk /\
+    Forall2 (books acct tbd_account) (map sc2_fact rows) ts /\ map t_desc ts = map sc2_text rows.
+Proof. exact swisscard2_run. Qed.
+Print Assumptions C13_swisscard2_end_to_end.
+
+Theorem C13_viac_end_to_end : forall flag l,
+  valid_name flag = true -> forallb viac_wf_entry l = true ->
+  run_viac flag None (VValues l) = mkRun (print_directives (map (price_of flag s_CHF) (viac_prices 0 l))) SOk.
+Proof. exact viac_run. Qed.
+Print Assumptions C13_viac_end_to_end.
+
+Theorem C13_cumulus_end_to_end : forall flag acct entries,
+  account_flag flag = AAcc acct -> acct <> tbd_account -> forallb cum_wf_entry entries = true ->
+  exists ts, run_cumulus flag (map CRec (flat_map cum_records entries)) = mkRun (print_directives (map DTxn ts)) SOk /\
+    Forall2 (books acct tbd_account) (flat_map cum_facts entries) ts /\
+    map t_desc ts = flat_map cum_texts entries.
+Proof. exact cumulus_run. Qed.
+Print Assumptions C13_cumulus_end_to_end.
+
+Theorem C13_postfinance_end_to_end : forall dbg flag acct kvs header rows d1 ds,
+  let cur := pf_header_currency kvs s_CHF in
+  account_flag flag = AAcc acct -> acct <> tbd_account ->
+  forallb pf_is_kv kvs = true -> pf_is_kv header = false -> valid_name cur = true ->
+  forallb pf_wf_row rows = true -> pf_is_row d1 = false -> forallb (fun r => len_is r 1) ds = true ->
+  exists ts, run_postfinance dbg flag (pf_statement kvs header rows d1 ds) =
+             mkRun (pf_debug_line dbg d1 ++ print_directives (map DTxn ts)) SOk /\
+    Forall2 (books acct tbd_account) (map (pf_fact cur) rows) ts /\
+    map t_desc ts = map pf_text rows.
+Proof. exact postfinance_run. Qed.
+Print Assumptions C13_postfinance_end_to_end.
+
+Theorem C13_swisscard_end_to_end : forall flag acct rows,
+  account_flag flag = AAcc acct -> acct <> tbd_account -> forallb sc_wf_row rows = true ->
+  exists ts, run_swisscard flag (map CRec rows) = mkRun (print_directives (map DTxn ts)) SOk /\
+    Forall2 (books acct tbd_account) (map sc_fact (filter sc_is_booking rows)) ts /\
+    map t_desc ts = map sc_text (filter sc_is_booking rows).
+Proof. exact swisscard_run. Qed.
+Print Assumptions C13_swisscard_end_to_end.
+
+Theorem C13_supercard_end_to_end : forall flag acct header rows,
+  account_flag flag = AAcc acct -> acct <> tbd_account -> forallb sup_wf_row rows = true ->
+  exists ts, run_supercard flag (CRec sup_first :: CRec header :: map CRec rows) = mkRun (print_directives (map DTxn ts)) SOk /\
+    Forall2 (books acct tbd_account) (map sup_fact (filter sup_is_booking rows)) ts /\
+    map t_desc ts = map sup_text (filter sup_is_booking rows).
+Proof. exact supercard_run. Qed.
+Print Assumptions C13_supercard_end_to_end.
+
+(* swisscard: the importer's one-pass replacer = remove every "CHF", then every "'" *)
+Theorem C13_swisscard_amount_text : forall s, sc_clean s = sc_amount_text s.
+Proof. exact sc_clean_spec. Qed.
+Print Assumptions C13_swisscard_amount_text.
 
 (* ---------------------------------------------------------------- shared back half *)
 
